@@ -52,8 +52,8 @@ def run(ctx: Ctx) -> None:
     ps = gd.positional_params()
     types_p, names_p, n_p = ps[1], ps[2], ps[3]
     GEN = f"""
-_L = [None] * len({names_p})
-for _I, _V in enumerate({names_p}):
+_L = [None] * len(__LEN)
+for _I, _V in enumerate(__SEQ):
     NAMEDEF
     _T = {types_p}[_NAME]
     ___
@@ -70,8 +70,17 @@ ___
 self.theDraws = np.moveaxis(self.theDraws, 0, -1)
 return self.theDraws
 """
-    ok = has(gd.node, GEN.replace('NAMEDEF', '_NAME = _V')) or has(gd.node, GEN.replace('    NAMEDEF\n', '').replace('_NAME', '_V'))
-    ctx.add('C10.R1', 'Database.generate_draws:columns', ok, gd, 'column i holds the series of the i-th name, generated with the generator of that name\'s declared type (native, else user, else error); the variable axis is moved last' if ok else 'the filling / layout of the draw table changed (column i <-> name i <-> generator of its declared type, native before user, moveaxis(0, -1))', 'columns')
+    from ..pattern import find as _find
+
+    bg = _find(gd.node, GEN.replace('NAMEDEF', '_NAME = _V')) or _find(gd.node, GEN.replace('    NAMEDEF\n', '').replace('_NAME', '_V'))
+    ok = None
+    why = 'shape not recognised - expected: one column per name of `names`, filled by the generator of the declared type of that name (native, else user, else error), variable axis moved last'
+    if bg is not None:
+        seqv, lenv = unparse(bg['__SEQ'][1]), unparse(bg['__LEN'][1])
+        ok = seqv == names_p and lenv == names_p
+        if not ok:
+            why = f'the columns of the draw table are laid out over {seqv} (length {lenv}): column i must belong to {names_p}[i], the sorted names by which the expressions address their series'
+    ctx.add('C10.R1', 'Database.generate_draws:columns', ok, gd, 'column i holds the series of the i-th name, generated with the generator of that name\'s declared type (native, else user, else error); the variable axis is moved last' if ok else why, 'columns', positive=ok is False)
     from .c01 import leaf_tables
 
     sub = Ctx(prog, ctx.prop, ctx.tier)
@@ -107,9 +116,11 @@ return self.theDraws
         det = unparse(val)[:140]
         oks = m_node(_parse(f'{{_K: convert_random_generator_tuple(the_tuple=_T) for _K, _T in {p}.items()}}')[0].value, val, {}) or \
             m_node(_parse(f'{{_K: convert_random_generator_tuple(_T) for _K, _T in {p}.items()}}')[0].value, val, {})
+    if not oks and 'self.userRandomNumberGenerators' not in det:
+        oks = None  # another spelling of the table: nothing says that old generators are kept
     ctx.add('C10.R3', 'Database.set_random_number_generators:registered', oks, srg,
             'the registered generators are those of this call, under their own names' if oks
-            else f'the table of user generators is no longer the converted argument of this call ({det}): a type name may keep another generator than the one just registered', det)
+            else f'the table of user generators is not exactly the converted argument of this call ({det}): a type name may keep another generator than the one just registered' if oks is False else f'shape not recognised - expected: the table is the converted argument of this call ({det})', det, positive=oks is False)
     from . import c01
 
     sub = Ctx(prog, ctx.prop, ctx.tier)
